@@ -19,16 +19,17 @@ PROPERTY = 'C02'
 LEVEL = 'model_checking'
 BOUNDS = {'quick': {'assignments': 3, 'fanout': '0..3 per trigger', 'pool_assignments': 3},
           'thorough': {'assignments': 4, 'fanout': '0..3 per trigger', 'pool_assignments': 4}}
-OUTSIDE = ["values whose == is not an equivalence (NaN)", "more than 3 events per trigger",
+OUTSIDE = ["more than 3 events per trigger",
            "sequences longer than the bound"]
 STUBS = ["Circuit.sblock_queue = list-backed stub; start sequence = real resolver/finalize/init methods",
          "CBlock sender evaluated by calling the real eval_block() after each input change"]
 ASSUMPTIONS = ["filters are pure"]
 EXPECT_LABELS = {'all': ['log-length', 'log-entry', 'sync', 'pool-log']}
-EXPECT_NOTES = {'all': ['unchanged-assignment', 'changed-assignment', 'equal-not-identical']}
+EXPECT_NOTES = {'all': ['unchanged-assignment', 'changed-assignment', 'equal-not-identical', 'nan-reassigned']}
 FLOORS = {'quick': {'paths': 500, 'checks': 2000}, 'thorough': {'paths': 5000, 'checks': 20000}}
 
-POOL = [1, True, 1.0, 0, False, None, (1,), (1.0,), 'a', 2]
+NAN = float('nan')        # one shared object: equal-by-identity but unequal to itself
+POOL = [1, True, 1.0, 0, False, None, (1,), (1.0,), 'a', 2, NAN]
 
 
 def wrap_events(evs, form):
@@ -167,7 +168,9 @@ def scen_pool(env, sender, n):
     for k in range(n):
         v = POOL[env.choose(len(POOL), f'p{k}')]
         assign(v)
-        changed = prev is UNDEF or prev != v
+        changed = prev is UNDEF or prev != v        # 'consecutive values that compare unequal' (NaN != NaN)
+        if v is NAN and prev is NAN:
+            env.note('nan-reassigned')
         if not changed and prev is not v and type(prev) is not type(v):
             env.note('equal-not-identical')
         if changed:
